@@ -35,6 +35,8 @@ type Result struct {
 	Diffs []Entry `json:"-"`
 	Raw   [][]interface{} `json:"diffs,omitempty"`
 	Alts  []*Result `json:"alts,omitempty"`
+	VA    *bool     `json:"va,omitempty"` // model only: document a / b satisfies the validity hypothesis of total_no_panic
+	VB    *bool     `json:"vb,omitempty"`
 }
 
 func (r *Result) decode() {
